@@ -124,7 +124,8 @@ func writeBuf(
 	w := slip.StandardOutput.(io.Writer)
 	ss, _ := slip.StandardOutput.(slip.Stream)
 
-	for i := 1; i < len(args)-1; i += 2 {
+	i := 1
+	for ; i < len(args)-1; i += 2 {
 		sym, ok := args[i].(slip.Symbol)
 		if !ok {
 			slip.TypePanic(s, depth, "keyword", args[i], "keyword")
@@ -189,6 +190,9 @@ func writeBuf(
 				slip.TypePanic(s, depth, "keyword", sym, writeKeywords...)
 			}
 		}
+	}
+	if i < len(args) {
+		slip.ErrorPanic(s, depth, "extra arguments that are not keyword and value pairs")
 	}
 	if sa, ok := obj.(slip.ScopedAppender); ok {
 		return sa.ScopedAppend(nil, s, &p, 0), w, ss
